@@ -226,6 +226,25 @@ def run_chain(job, reverse):
             if any('DIVERGES' in s for s in sigs):
                 break
             check_unchanged('after-using module %d' % mi)
+        if not any('DIVERGES' in s for s in sigs):
+            # the SAME text object parsed through the base, the most derived module and the base again: each outcome
+            # equals the one obtained with a fresh text object
+            for t in INPUTS[:70]:
+                seqm = [0, len(mods) - 1, 0]
+                freshes = [impl.run(mods[mi2].parse, e1.fresh(t), 0, True, time_limit=1.0) for mi2 in seqm]
+                # (the three parses of the one object follow each other directly)
+                sames = [impl.run(mods[mi2].parse, t, 0, True, time_limit=1.0) for mi2 in seqm]
+                for mi2, same, fresh_ in zip(seqm, sames, freshes):
+                    bump('cases')
+                    if (same['kind'], same.get('value'), same.get('index')) != (fresh_['kind'], fresh_.get('value'), fresh_.get('index')):
+                        case = {'descs': kdescs, 'what': 'same text object through module %d after another module' % mi2, 'text': t}
+                        sig = '%s outcome-depends-on-text-object-seen-by-another-module' % tag
+                        key = case_key(case)
+                        res['viol_keys'].append((key, sig))
+                        if sig not in sigs:
+                            sigs.add(sig)
+                            res['viol'].append({'sig': sig, 'key': key, 'case': case, 'expected': [fresh_['kind'], fresh_.get('value')],
+                                                'got': [same['kind'], same.get('value')]})
         if len(specs) == 2 and not reverse and not any('DIVERGES' in s for s in sigs):
             # revision history: a revised base is compiled under the same name, then the SAME derived text is
             # compiled again: it must now behave as a derivation of the revised base
